@@ -148,7 +148,8 @@ def run_case(case, root, extractall):
             # a rejected archive may leave the members before the failing one (the code extracts in
             # order) or fewer (e.g. when all names are validated first) - but nothing else
             problems.append("effect differs: extra=%r" % (sorted(created_inside - expected)[:4],))
-    # status "oserror": verdict and effect inside the destination are free; `outside` is judged above
+    # status "oserror" / "atdst" (a member naming the destination itself): verdict and effect inside
+    # the destination are free; `outside` is judged above
     if problems:
         return {"case": case, "names": names, "names_read_back": read_names, "got": got, "problems": problems}
     return None
